@@ -1408,6 +1408,34 @@ _sp["level_text"] += (
     "message intact, in order, and end-of-stream after the writer's drop: C15_sock_model_ok, C15_sock_ok_only about "
     "the model SockFront.v.")
 
+# ---- C18 part threads: span ids of calls made from different OS threads (coq/SpanThreads.v, monitor only) ----
+THREADS_PART = {
+    "name": "threads",
+    "harness": "spans",
+    "gen_args": [],
+    "run_args": [],
+    "cases_header": HDR.format(mods="SpanThreads Checks.C18threads"),
+    "case_term": lambda c: f"({c['cfg']}, {c['ops']}, {c['obs']})",
+    "quick": {"count": 300},
+    "thorough": {"count": 5000},
+    "sweeps": [[]],
+    "nontrivial": has("several-threads"),
+    "rule": "part threads (monitor only): 1..8 calls on a real client over the in-memory transport, every call created and "
+            "first polled (where Channel::call mints the request's span) on one of 1..4 freshly spawned OS threads; caller "
+            "trace ids include 0, caller span ids 0 or random; the dispatch is then polled by hand and the requests are read "
+            "at the server end; monitor SpanThreads.c18t_ok: every call's request arrives once with the caller's trace id "
+            "and a span id that is neither the caller's nor shared with another request; nothing is compared with a model "
+            "(a random draw has none); non-trivial = calls were made from at least two OS threads",
+    "max_shrinks": 2,
+}
+_sp = SPECS["C18"]
+_sp["parts"] = _sp["parts"] + [THREADS_PART]
+_sp["coq_targets"] = _sp["coq_targets"] + ["Checks/C18threads.vo"]
+_sp["level_text"] += (
+    " Part threads (third session, monitor only): calls first polled on different OS threads must be transmitted with "
+    "pairwise different span ids, each different from its caller's, and with the caller's trace id (C18_threads_sound: "
+    "what an accepted trace guarantees).")
+
 # ---- chain composition (coq/Chain*.v, harness `chain`): parts of C04, C18, C07 ----
 CHAIN_RULE = ("REAL chains of depth 1..3: node i = client::new + BaseChannel::with_defaults(rx).requests() over "
               "transport::channel::unbounded() (client end through a forwarding tap that notes successful writes); the handler "
